@@ -18,8 +18,10 @@ package main
 
 import (
 	"bytes"
+	"context"
 	"encoding/json"
 	"fmt"
+	"os"
 	"strings"
 
 	"github.com/tink-crypto/tink-go/v2/aead"
@@ -49,7 +51,21 @@ type world struct {
 	keks    []kek
 	flip    bool
 	breach  map[string]bool
+	scan    *scanner
 	written int
+}
+
+// hex dumps the marshalled keyset; long dumps are cut in the message and written in full next to
+// the stats file.
+func (w *world) hex(ks *tinkpb.Keyset) string {
+	hx := kslib.Hex(ks)
+	if len(hx) > 1600 && *hlib.FlagStats != "" {
+		file := fmt.Sprintf("%s.case%d.hex", strings.TrimSuffix(*hlib.FlagStats, ".json"), w.o.NCase)
+		if os.WriteFile(file, []byte(hx+"\n"), 0o644) == nil {
+			return hx[:1600] + "…(full dump: " + file + ")"
+		}
+	}
+	return hx
 }
 
 func clonePK(pk *kslib.PoolKey) *tinkpb.KeyData { return proto.Clone(pk.KD).(*tinkpb.KeyData) }
@@ -136,7 +152,7 @@ func (w *world) gate(g *gen) {
 		o.Count("shape/" + l)
 	}
 	o.Count(fmt.Sprintf("nkeys/%d", len(ks.Key)))
-	ctx := func() string { return fmt.Sprintf("shape=%v keyset=%s", g.label, kslib.Hex(ks)) }
+	ctx := func() string { return fmt.Sprintf("shape=%v keyset=%s", g.label, w.hex(ks)) }
 	guard := func(name string, f func()) bool {
 		if p := hlib.Recover(f); p != "" {
 			o.Violate("panic in %s: %s; %s", name, p, ctx())
@@ -306,31 +322,65 @@ func (w *world) gate(g *gen) {
 
 // ---------- part 2: outputs ----------
 
-type scanner struct{ windows map[string]int }
+// scanner: every 8-byte window of every secret field (key_value, private_key, d, p, q, …) of the
+// pool's symmetric and private keys — the true secret bytes, whatever a test relabels the key
+// as — plus, per keyset, the opaque values declared secret under unknown type URLs.
+type scanner struct {
+	windows map[string]string
+	extra   map[string]string
+}
 
-func newScanner(ks *tinkpb.Keyset) *scanner {
-	s := &scanner{windows: map[string]int{}}
-	for i, k := range ks.GetKey() {
-		for _, f := range kslib.SecretFields(k.GetKeyData()) {
-			for j := 0; j+8 <= len(f); j++ {
-				s.windows[string(f[j:j+8])] = i
-			}
+func (s *scanner) add(m map[string]string, f []byte, name string) {
+	for j := 0; j+8 <= len(f); j++ {
+		if printable(f[j : j+8]) {
+			// text inside an opaque value (e.g. a nested type URL) is not key material and
+			// legitimately recurs in the metadata of other keys
+			continue
+		}
+		m[string(f[j:j+8])] = name
+	}
+}
+
+func poolScanner(p *kslib.Pool) *scanner {
+	s := &scanner{windows: map[string]string{}}
+	for _, pk := range p.Keys {
+		for _, f := range kslib.SecretFields(pk.KD) {
+			s.add(s.windows, f, pk.Name)
 		}
 	}
 	return s
 }
 
-// find returns the index of a key one of whose secret 8-byte windows occurs in b (-1 if none).
-func (s *scanner) find(b []byte) int {
-	if len(s.windows) == 0 {
-		return -1
-	}
-	for j := 0; j+8 <= len(b); j++ {
-		if i, ok := s.windows[string(b[j:j+8])]; ok {
-			return i
+// forKeyset adds the opaque secret values of ks.
+func (s *scanner) forKeyset(ks *tinkpb.Keyset) {
+	s.extra = map[string]string{}
+	for i, k := range ks.GetKey() {
+		if k.GetKeyData().GetTypeUrl() == "type.googleapis.com/verif.Opaque" && int32(k.GetKeyData().GetKeyMaterialType()) <= 2 {
+			s.add(s.extra, k.GetKeyData().GetValue(), fmt.Sprintf("opaque key %d", i))
 		}
 	}
-	return -1
+}
+
+func printable(b []byte) bool {
+	for _, c := range b {
+		if c < 0x20 || c > 0x7e {
+			return false
+		}
+	}
+	return true
+}
+
+// find returns the name of a key one of whose secret 8-byte windows occurs in b ("" if none).
+func (s *scanner) find(b []byte) string {
+	for j := 0; j+8 <= len(b); j++ {
+		if n, ok := s.windows[string(b[j:j+8])]; ok {
+			return n
+		}
+		if n, ok := s.extra[string(b[j:j+8])]; ok {
+			return n
+		}
+	}
+	return ""
 }
 
 func expectedInfo(ks *tinkpb.Keyset) *tinkpb.KeysetInfo {
@@ -344,16 +394,17 @@ func expectedInfo(ks *tinkpb.Keyset) *tinkpb.KeysetInfo {
 
 func (w *world) outputs(h *keyset.Handle, mat *tinkpb.Keyset, g *gen) {
 	o := w.o
-	ctx := func() string { return fmt.Sprintf("shape=%v keyset=%s", g.label, kslib.Hex(mat)) }
-	sc := newScanner(mat)
-	if len(sc.windows) > 0 {
-		o.Count("handles-with-secret-fields")
+	ctx := func() string { return fmt.Sprintf("shape=%v keyset=%s", g.label, w.hex(mat)) }
+	sc := w.scan
+	sc.forKeyset(mat)
+	if expectSecret(mat) {
+		o.Count("handles-with-secret-keys")
 	}
 	leak := func(where string, b []byte) {
 		o.Count("scanned/" + strings.SplitN(strings.SplitN(where, ",", 2)[0], " ", 2)[0])
-		if i := sc.find(b); i >= 0 {
+		if n := sc.find(b); n != "" {
 			o.Count("LEAK")
-			o.Violate("%s contains >= 8 bytes of the secret material of key %d (%s); %s", where, i, mat.Key[i].GetKeyData().GetTypeUrl(), ctx())
+			o.Violate("%s contains >= 8 bytes of the secret material of %s; %s", where, n, ctx())
 		}
 	}
 	guard := func(name string, f func()) bool {
@@ -396,6 +447,7 @@ func (w *world) outputs(h *keyset.Handle, mat *tinkpb.Keyset, g *gen) {
 			ad = w.rng.Bytes(1 + w.rng.Intn(40))
 		}
 		useWrite := len(ad) == 0 && w.rng.Bool() // h.Write == WriteWithAssociatedData(…, []byte{})
+		useCtx := !useWrite && w.rng.Chance(35)    // WriteWithContext / ReadWithContext (separate encrypt/decrypt code)
 		for _, wn := range []string{"BinaryWriter", "JSONWriter", "MemReaderWriter"} {
 			var buf bytes.Buffer
 			mem := &keyset.MemReaderWriter{}
@@ -412,10 +464,14 @@ func (w *world) outputs(h *keyset.Handle, mat *tinkpb.Keyset, g *gen) {
 			api := "WriteWithAssociatedData"
 			if useWrite {
 				api = "Write"
+			} else if useCtx {
+				api = "WriteWithContext"
 			}
 			if !guard(api+"("+wn+")", func() {
 				if useWrite {
 					werr = h.Write(wr, k.a)
+				} else if useCtx {
+					werr = h.WriteWithContext(context.Background(), wr, ctxAEAD{k.a}, ad)
 				} else {
 					werr = h.WriteWithAssociatedData(wr, k.a, ad)
 				}
@@ -428,6 +484,7 @@ func (w *world) outputs(h *keyset.Handle, mat *tinkpb.Keyset, g *gen) {
 			}
 			w.written++
 			o.Count("encrypted-writes/" + wn)
+			o.Count("encrypted-writes-api/" + api)
 			o.Count("encrypted-writes-kek/" + k.name)
 			o.Count(fmt.Sprintf("encrypted-writes-ad/%s", map[bool]string{true: "empty", false: "non-empty"}[len(ad) == 0]))
 			where := fmt.Sprintf("%s(%s,%s,ad=%x)", api, wn, k.name, ad)
@@ -520,6 +577,8 @@ func (w *world) outputs(h *keyset.Handle, mat *tinkpb.Keyset, g *gen) {
 				if p := hlib.Recover(func() {
 					if viaRead {
 						h2, err = keyset.Read(r, a)
+					} else if useCtx {
+						h2, err = keyset.ReadWithContext(context.Background(), r, ctxAEAD{a}, ad)
 					} else {
 						h2, err = keyset.ReadWithAssociatedData(r, a, ad)
 					}
@@ -573,6 +632,16 @@ func (w *world) outputs(h *keyset.Handle, mat *tinkpb.Keyset, g *gen) {
 	}
 }
 
+// ctxAEAD turns an AEAD into a tink.AEADWithContext.
+type ctxAEAD struct{ a tink.AEAD }
+
+func (c ctxAEAD) EncryptWithContext(_ context.Context, pt, ad []byte) ([]byte, error) {
+	return c.a.Encrypt(pt, ad)
+}
+func (c ctxAEAD) DecryptWithContext(_ context.Context, ct, ad []byte) ([]byte, error) {
+	return c.a.Decrypt(ct, ad)
+}
+
 func indexOf(ks []kek, name string) int {
 	for i, k := range ks {
 		if k.name == name {
@@ -587,7 +656,7 @@ func indexOf(ks []kek, name string) int {
 func (w *world) run() {
 	o := w.o
 	// (a) one public/remote keyset per size with one secret key at each position (and none)
-	for rep, reps := 0, hlib.N(14, 280); rep < reps; rep++ {
+	for rep, reps := 0, hlib.N(45, 900); rep < reps; rep++ {
 		n := 1 + w.rng.Intn(6)
 		base := &tinkpb.Keyset{}
 		for i := 0; i < n; i++ {
@@ -617,8 +686,26 @@ func (w *world) run() {
 			w.gate(g)
 		}
 	}
+	// (b') every secret pool key relabelled ASYMMETRIC_PUBLIC / REMOTE / undefined, alone and
+	// behind a public key: does the per-type parser notice?
+	for _, i := range w.secret {
+		pk := w.pool.Keys[i]
+		for _, m := range []int32{3, 4, 5} {
+			for _, n := range []int{1, 2} {
+				g := &gen{ks: &tinkpb.Keyset{}, label: []string{"secret-key-relabelled-nonsecret", fmt.Sprintf("material=%d", m)}}
+				if n == 2 {
+					g.ks.Key = append(g.ks.Key, w.entry(g.ks, w.pick(w.public)))
+				}
+				e := w.entry(g.ks, pk)
+				e.KeyData.KeyMaterialType = tinkpb.KeyData_KeyMaterialType(m)
+				g.ks.Key = append(g.ks.Key, e)
+				w.finish(g)
+				w.gate(g)
+			}
+		}
+	}
 	// (c) random mixes, material type numbers set at proto level, unknown type URLs
-	for i, n := 0, hlib.N(900, 18000); i < n; i++ {
+	for i, n := 0, hlib.N(3200, 64000); i < n; i++ {
 		g := &gen{ks: &tinkpb.Keyset{}}
 		nk := 1 + w.rng.Intn(6)
 		mode := w.rng.Intn(100)
@@ -695,6 +782,8 @@ func main() {
 	w := &world{o: o, rng: hlib.NewRng(*hlib.FlagSeed, "c13"), breach: map[string]bool{}}
 	kslib.InstallDetRand(*hlib.FlagSeed)
 	w.pool = kslib.BuildPool()
+	w.scan = poolScanner(w.pool)
+	o.Hist["secret-8-byte-windows-in-pool"] = len(w.scan.windows)
 	for _, s := range w.pool.Skipped {
 		o.Count("pool-skipped/" + s)
 	}
